@@ -311,6 +311,12 @@ def _build_pm(ctx, d, r, shape):
         if r.random() < 0.3:
             pos = [(float(z), 0.0, 0.0) for z in zs]     # positions that differ in x only
         kw['plane_positions'] = [hd.PlanePositionSequence('PATIENT', list(p)) for p in pos]
+    if r.random() < 0.25:
+        # the source's own orientation / measures given explicitly: must change nothing
+        if cs == 'SLIDE':
+            kw['plane_orientation'] = hd.PlaneOrientationSequence('SLIDE', [float(v) for v in src[0].ImageOrientationSlide])
+        else:
+            kw['plane_orientation'] = hd.PlaneOrientationSequence('PATIENT', [1.0, 0.0, 0.0, 0.0, 1.0, 0.0])
     st, pm = _try(ParametricMap, src, a, hd.UID(), 1, hd.UID(), 1, 'm', 'mm', '1', 'sn', False, maps,
                   r.choice([0.5, 128.0]), r.choice([1.0, 256.0]), transfer_syntax_uid=d['ts'], **kw)
     return a, desc, pos, cs, st, pm
